@@ -641,6 +641,10 @@ def main(argv):
     return vlib.run_pipeline(PROP, args.tier, args.seed, lean, [st], t0, assumptions=[
         "every reference evaluator is a polynomial of coordinate degree <= 3 (<= its nominal degree D) in the reference "
         "coordinates (T1 sampling assumption; cross-checked on 12 extra random points per table and by the T2 stream)",
+        "conformity / duality / reproduction theorems are stated for reference configurations (all edge orientations in "
+        "2-D, every stored order of a face in 3-D) with arbitrary vertex coordinates; that every cell of a 2-D mesh is "
+        "such a configuration is proved for the evaluator (slotPerm), for the remaining index bookkeeping it is "
+        "covered by this correspondence run",
         "Index modelled as unbounded Nat",
         "Lagrange-3 on tetrahedra, the non-parametric Rannacher-Turek / discontinuous-P1-on-hypercube evaluators and the "
         "Bernstein-2 node functionals are not instantiable exactly at Q (constexpr scalar constants / irrational Gauss "
